@@ -1,8 +1,338 @@
 import Got.Drv.Common
-/- driver for the wheel model family (properties C03): to be written -/
-namespace Got.Drv.Wheel
+import Got.Model.Wheel
+/-
+drv_wheel — driver of the wheel model (property C03).  Monitor protocol: every input line is
+`<script>\t<impl observation>`; the answer is `ok` or `reject <why>`.   (`drv_wheel run`: input = script
+lines only, output = the model's own line.)
 
-def main (_args : List String) : IO Unit := do
-  IO.eprintln "drv_wheel: not implemented"
+race lines  (controlled scheduler; deterministic: the model's line must equal the implementation's)
+    race <n> <step> <ops of T1> <ops of T2> … | <schedule: thread ids, 0 = ticker>
+      ops (comma separated): n<d> NewTimer(d) · a<d> AfterFunc(d,·) · r Reset() · r<x> Reset(x)
+    observation:  <step log> / <tail log> | T<t>.<i>=i<cls>/<adv>,r<cls>/<adv>,c<chan>,f<tick>  …   (or  T<t>.<i>=P)
+      step log entry  <tid>.<site>.<obj>   obj: p = position, s<i> = slot i, c<id> = channel id;  <tid>.start
+    tail (fixed policy, mirrored here): start/finish every requester in tid order, then ticker steps until
+    every returned channel is closed (at most 4·(2n+4) steps).
+
+time lines  (real ticker under virtual time; tick j at j·step)
+    time <step> <n> | <id>,<t|a>,<at>,<d>[,<delay>/<arg|->]…   …
+    observation:  <id>=<fire>,<fire>,…   fire in ns since creation, P = panicked, N = never
+    stage i+1 is a Reset(arg) issued `delay` ns after the fire of stage i.  A request at instant τ sees
+    L = ⌊τ/step⌋ ticks; if τ is a tick instant (and the request is not a zero-delay Reset out of the
+    fire itself, which is ordered after the tick) it may also be ordered before that tick (L = τ/step − 1).
+-/
+namespace Got.Drv.Wheel
+open Got.Drv Got.Model.Wheel
+
+/-! ### race mode -/
+
+inductive Op where
+  | new (d : Int) | after (d : Int) | reset (arg : Option Int)
+  deriving Repr, Inhabited
+
+def parseOp (w : String) : Option Op :=
+  match w.toList with
+  | 'n' :: rest => (parseInt? (String.ofList rest)).map Op.new
+  | 'a' :: rest => (parseInt? (String.ofList rest)).map Op.after
+  | ['r'] => some (Op.reset none)
+  | 'r' :: rest => (parseInt? (String.ofList rest)).map (fun x => Op.reset (some x))
+  | _ => none
+
+def parseOps (w : String) : Option (List Op) := (w.splitOn ",").mapM parseOp
+
+structure Thr where
+  ops : Array Op
+  started : Bool := false
+  next : Nat := 0          -- index of the op in progress (or to be invoked)
+  finished : Bool := false
+  base : Int := 0          -- interval of the timer created by the first op
+  results : Array String := #[]
+  deriving Inhabited
+
+structure Sim where
+  s : State
+  thr : Array Thr          -- index 0 unused (ticker)
+  log : Array String := #[]
+  chans : Array ChanId := #[]   -- channels returned so far
+
+def site (l : List Int) (i : Nat) : String := toString (l.getD i 0)
+
+/-- log entry of the ticker's pending access -/
+def tickerEntry (s : State) : String :=
+  match s.tpc with
+  | .loadPos => s!"0.{site tickerSites 0}.p"
+  | .storePos => s!"0.{site tickerSites 1}.p"
+  | .swapSlot => s!"0.{site tickerSites 3}.s{s.tpos}"
+  | .close => s!"0.{site tickerSites 4}.c{s.tlast}"
+
+def reqEntry (s : State) (t : Nat) : String :=
+  match s.rpc t with
+  | .idle => s!"{t}.idle"
+  | .loadPos => s!"{t}.{site requestSites 2}.p"
+  | .loadSlot => s!"{t}.{site requestSites 3}.s{(s.rpos t + s.rk t) % s.n}"
+  | .reloadPos => s!"{t}.{site requestSites 4}.p"
+
+def opAct (t : Nat) (base : Int) : Op → Act
+  | .new d => .invoke t d
+  | .after d => .invoke t d
+  | .reset arg => .reset t base arg
+
+/-- invoke ops of thread t starting at its `next` until one is pending or the thread is finished -/
+def invokeNext (sim : Sim) (t : Nat) : Sim :=
+  match sim.thr[t]? with
+  | none => sim
+  | some th =>
+    if th.next ≥ th.ops.size then
+      { sim with thr := sim.thr.set! t { th with finished := true } }
+    else
+      let op := th.ops[th.next]!
+      let base := match op with | .new d => d | .after d => d | .reset _ => th.base
+      let np := sim.s.panics.length
+      let s' := step fixed sim.s (opAct t base op)
+      if s'.panics.length > np then
+        -- the call panicked: the thread ends
+        { sim with s := s',
+                   thr := sim.thr.set! t { th with base := base, finished := true,
+                                                    results := th.results.push s!"T{t}.{th.next}=P" } }
+      else
+        { sim with s := s', thr := sim.thr.set! t { th with base := base } }
+
+def showChan (op : Op) (c : ChanId) : String :=
+  match op with
+  | .after _ => "c-"
+  | _ => s!"c{c}"
+
+/-- one schedule token -/
+def token (sim : Sim) (t : Nat) : Sim :=
+  if t = 0 then
+    { sim with log := sim.log.push (tickerEntry sim.s), s := step fixed sim.s .tick }
+  else
+    match sim.thr[t]? with
+    | none => sim
+    | some th =>
+      if th.finished then sim
+      else if !th.started then
+        let sim := { sim with log := sim.log.push s!"{t}.start", thr := sim.thr.set! t { th with started := true } }
+        invokeNext sim t
+      else
+        let nd := sim.s.done.length
+        let e := reqEntry sim.s t
+        let s' := step fixed sim.s (.req t)
+        let sim := { sim with log := sim.log.push e, s := s' }
+        if s'.done.length > nd then
+          match s'.done with
+          | [] => sim
+          | r :: _ =>
+            let op := th.ops[th.next]!
+            let res := s!"T{t}.{th.next}=i{r.invCls}/{r.invAdv},r{r.retCls}/{r.retAdv},{showChan op r.chan},f"
+            let th := { th with next := th.next + 1, results := th.results.push res }
+            invokeNext { sim with thr := sim.thr.set! t th, chans := sim.chans.push r.chan } t
+        else sim
+
+def threadFinished (sim : Sim) (t : Nat) : Bool :=
+  match sim.thr[t]? with
+  | none => true
+  | some th => th.finished
+
+def finishThread (sim : Sim) (t : Nat) : Nat → Sim
+  | 0 => sim
+  | fuel + 1 => if threadFinished sim t then sim else finishThread (token sim t) t fuel
+
+def allClosed (sim : Sim) : Bool := sim.chans.all (fun c => (sim.s.closedBy c).isSome)
+
+def tickUntilClosed (sim : Sim) : Nat → Sim
+  | 0 => sim
+  | fuel + 1 => if allClosed sim then sim else tickUntilClosed (token sim 0) fuel
+
+/-- observed readiness: the tick that closes the channel; an AfterFunc callback whose channel was already
+    closed when the request returned is observed at the return (ticks completed then) -/
+def fireStr (s : State) (r : Req) (isAfter : Bool) : String :=
+  match s.closedBy r.chan with
+  | some j => toString (if isAfter then max j r.retCls else j)
+  | none => "never"
+
+/-- results carry the channel implicitly: re-attach the fire tick of the i-th returned channel -/
+def renderResults (sim : Sim) : List String := Id.run do
+  let mut out : List String := []
+  let mut ci := 0
+  -- results were pushed in completion order per thread; the fire tick needs the channel: recompute from `done`
+  let recs := sim.s.done.reverse
+  for t in [1:sim.thr.size] do
+    let th := sim.thr[t]!
+    let mine := recs.filter (fun r => r.tid = t)
+    let mut j := 0
+    for res in th.results do
+      if res.endsWith ",f" then
+        match mine[j]? with
+        | some r => out := out ++ [res ++ fireStr sim.s r ((res.splitOn ",c-,").length > 1)]
+        | none => out := out ++ [res ++ "?"]
+        j := j + 1
+      else
+        out := out ++ [res]
+    ci := ci + 1
+  return out
+
+def runRace (n step : Nat) (opss : List (List Op)) (sched : List Nat) : String :=
+  let thr : Array Thr := #[{ ops := #[] }] ++ (opss.map (fun o => ({ ops := o.toArray } : Thr))).toArray
+  let sim : Sim := { s := init n step, thr := thr }
+  let sim := sched.foldl token sim
+  let sim := { sim with log := sim.log.push "/" }
+  let sim := (List.range thr.size).foldl (fun sim t => if t = 0 then sim else finishThread sim t 100000) sim
+  let sim := tickUntilClosed sim (4 * (2 * n + 4))
+  joinSp (sim.log.toList ++ ["|"] ++ renderResults sim)
+
+def splitBar (ws : List String) : List String × List String :=
+  (ws.takeWhile (· ≠ "|"), (ws.dropWhile (· ≠ "|")).drop 1)
+
+def raceLine (ws : List String) : Option String :=
+  let (head, sched) := splitBar ws
+  match head with
+  | n :: st :: ops =>
+    match parseNat? n, parseNat? st, ops.mapM parseOps, sched.mapM parseNat? with
+    | some n, some st, some opss, some sched =>
+      if n = 0 ∨ st = 0 then none else some (runRace n st opss sched)
+    | _, _, _, _ => none
+  | _ => none
+
+/-! ### timing mode -/
+
+structure Prog where
+  id : String
+  after : Bool
+  at_ : Nat
+  d : Int
+  resets : List (Nat × Option Int)
+
+def parseReset (w : String) : Option (Nat × Option Int) :=
+  match w.splitOn "/" with
+  | [dl, "-"] => (parseNat? dl).map (fun x => (x, none))
+  | [dl, a] => match parseNat? dl, parseInt? a with
+    | some x, some y => some (x, some y)
+    | _, _ => none
+  | _ => none
+
+def parseProg (w : String) : Option Prog :=
+  match w.splitOn "," with
+  | id :: kind :: at_ :: d :: rs =>
+    match parseNat? at_, parseInt? d, rs.mapM parseReset with
+    | some at_, some d, some rs =>
+      if kind = "t" then some { id := id, after := false, at_ := at_, d := d, resets := rs }
+      else if kind = "a" then some { id := id, after := true, at_ := at_, d := d, resets := rs }
+      else none
+    | _, _, _ => none
+  | _ => none
+
+/-- cross-check of the closed form against the transition system for small cases -/
+def seqFire (n step L : Nat) (d : Int) : Option Nat :=
+  let k := bucketIndex step d
+  let acts := (List.replicate L fullTick).flatten ++ fullReq 1 d ++ (List.replicate (k + 2) fullTick).flatten
+  lastFire (run fixed (init n step) acts)
+
+/-- allowed fire instants of a request issued at instant τ for interval d -/
+def allowed (step _n : Nat) (τ : Nat) (d : Int) (exact : Bool) : List Nat :=
+  let k := bucketIndex step d
+  let L := τ / step
+  let ls := if τ % step = 0 ∧ τ > 0 ∧ !exact then [L - 1, L] else [L]
+  ls.map (fun L => fireTime step L k)
+
+def ltsAgrees (step n : Nat) (τ : Nat) (d : Int) : Bool :=
+  let L := τ / step
+  if n ≤ 8 ∧ L ≤ 24 then seqFire n step L d == some (L + bucketIndex step d + 1) else true
+
+/-- walk the stages of one program against the observed fires; returns an error or none -/
+def checkProg (step n : Nat) (p : Prog) (obs : List String) : Option String :=
+  let rec go (τ : Nat) (d : Int) (exact : Bool) (rs : List (Nat × Option Int)) (obs : List String) (i : Nat) : Option String :=
+    if rangePanics step n d then
+      match obs with
+      | ["P"] => none
+      | _ => some s!"prog {p.id} stage {i}: interval {d} is out of range, the model panics; observed {obs}"
+    else if !ltsAgrees step n τ d then some s!"prog {p.id} stage {i}: model-internal: closed form and transition system disagree"
+    else
+      let al := allowed step n τ d exact
+      match obs with
+      | [] => some s!"prog {p.id} stage {i}: no observation, model fires at {al}"
+      | o :: obs' =>
+        match parseNat? o with
+        | none => some s!"prog {p.id} stage {i}: observed {o}, model fires at {al}"
+        | some f =>
+          if !al.contains f then some s!"prog {p.id} stage {i}: request at {τ} for {d}: observed fire {f}, model fires at {al}"
+          else match rs with
+            | [] => if obs'.isEmpty then none else some s!"prog {p.id}: surplus observations {obs'}"
+            | (dl, arg) :: rs' => go (f + dl) (resetInterval step p.d arg) (dl == 0) rs' obs' (i + 1)
+  go p.at_ p.d false p.resets obs 0
+
+def timeLine (ws : List String) (impl : List String) : String :=
+  let (head, progs) := splitBar ws
+  match head with
+  | [st, n] =>
+    match parseNat? st, parseNat? n, progs.mapM parseProg with
+    | some st, some n, some progs =>
+      if st = 0 ∨ n = 0 then "reject bad-config" else
+      if progs.length ≠ impl.length then s!"reject {progs.length} programs, {impl.length} observations" else
+      let errs := (progs.zip impl).filterMap (fun (p, o) =>
+        match o.splitOn "=" with
+        | [id, fs] => if id ≠ p.id then some s!"prog {p.id}: observation is for {id}" else checkProg st n p (fs.splitOn ",")
+        | _ => some s!"prog {p.id}: malformed observation {o}")
+      match errs with
+      | [] => "ok"
+      | e :: _ => "reject " ++ e
+    | _, _, _ => "reject bad-script"
+  | _ => "reject bad-script"
+
+def timeRun (ws : List String) : String :=
+  let (head, progs) := splitBar ws
+  match head with
+  | [st, n] =>
+    match parseNat? st, parseNat? n, progs.mapM parseProg with
+    | some st, some n, some progs =>
+      joinSp (progs.map (fun p => if rangePanics st n p.d then s!"{p.id}=P" else s!"{p.id}={allowed st n p.at_ p.d false}"))
+    | _, _, _ => "bad-script"
+  | _ => "bad-script"
+
+/-! ### pure part (differential):  `pure <step> <n> <base> <arg|->`  = NewTimer(base) then Reset(arg…) on a wheel
+that never ticks;  observation  `new=<P|k<index>> reset=<P|k<index>|->`  (index = slot read at position 0) -/
+def pureLine (ws : List String) : Option String :=
+  match ws with
+  | [st, n, base, arg] =>
+    match parseNat? st, parseNat? n, parseInt? base with
+    | some st, some n, some base =>
+      if st = 0 ∨ n = 0 then none else
+      let a := if arg = "-" then none else parseInt? arg
+      let one (d : Int) : String := if rangePanics st n d then "P" else s!"k{bucketIndex st d}"
+      if rangePanics st n base then some "new=P reset=-"
+      else some s!"new={one base} reset={one (resetInterval st base a)}"
+    | _, _, _ => none
+  | _ => none
+
+def monitor (_ : Unit) (line : String) : Unit × String :=
+  if line.isEmpty then ((), "") else
+  let (script, impl) := match line.splitOn "\t" with
+    | [a, b] => (a, b)
+    | a :: _ => (a, "<none>")
+    | [] => ("", "<none>")
+  match words script with
+  | "race" :: ws =>
+    match raceLine ws with
+    | some m => ((), if m = impl then "ok" else "reject expected " ++ m)
+    | none => ((), "reject bad-script")
+  | "time" :: ws => ((), timeLine ws (words impl))
+  | "pure" :: ws =>
+    match pureLine ws with
+    | some m => ((), if m = impl then "ok" else "reject expected " ++ m)
+    | none => ((), "reject bad-script")
+  | _ => ((), "reject bad-script")
+
+def runOnly (_ : Unit) (line : String) : Unit × String :=
+  match words line with
+  | "race" :: ws => ((), (raceLine ws).getD "bad-script")
+  | "time" :: ws => ((), timeRun ws)
+  | "pure" :: ws => ((), (pureLine ws).getD "bad-script")
+  | [] => ((), "")
+  | _ => ((), "bad-script")
+
+def main (args : List String) : IO Unit := do
+  if args = ["run"] then
+    lineLoop (← IO.getStdin) (← IO.getStdout) runOnly ()
+  else
+    lineLoop (← IO.getStdin) (← IO.getStdout) monitor ()
 
 end Got.Drv.Wheel
